@@ -38,7 +38,7 @@ func (d *restDriver) do(c *client, j job) restEvent {
 }
 
 var digitSpellings = []string{"6", "8", "9", "10", "", "7", "06", "ten", " 8"}
-var algSpellings = []string{"SHA1", "SHA256", "SHA512", "", "sha1", "sha256", "SHA-256", "MD5", "SHA384"}
+var algSpellings = []string{"SHA1", "SHA256", "SHA512", "SHA1", "SHA256", "SHA512", "", "sha1", "sha256", "sha512", "Sha256", "SHA-256", "MD5", "SHA384", " SHA256"}
 
 func allAlgWindow(key []byte, c uint64, w int) []Mac {
 	var o orcSet
@@ -98,8 +98,8 @@ func (d *restDriver) jobHOTPVal(c *ctx, tag string, probe bool) job {
 	q.Secret = rfStr(sec)
 	ctr := c.someCounter() >> 1
 	q.Counter = rfNum(ctr)
-	dsp := []string{"6", "8", "9", "10", ""}[c.rng.Intn(5)]
-	asp := []string{"SHA1", "SHA256", "SHA512", ""}[c.rng.Intn(4)]
+	dsp := digitSpellings[c.rng.Intn(len(digitSpellings))]
+	asp := algSpellings[c.rng.Intn(len(algSpellings))]
 	if dsp != "" || c.rng.Intn(2) == 0 {
 		q.Digits = rfStr(dsp)
 	}
@@ -167,8 +167,8 @@ func (d *restDriver) jobTOTP(c *ctx, tag string, probe bool, validate bool) job 
 	if eff == 0 {
 		eff = 30
 	}
-	dsp := []string{"6", "8", "9", "10", "", "5"}[c.rng.Intn(6)]
-	asp := []string{"SHA1", "SHA256", "SHA512", "", "sha512"}[c.rng.Intn(5)]
+	dsp := digitSpellings[c.rng.Intn(len(digitSpellings))]
+	asp := algSpellings[c.rng.Intn(len(algSpellings))]
 	if dsp != "" || c.rng.Intn(2) == 0 {
 		q.Digits = rfStr(dsp)
 	}
